@@ -34,6 +34,10 @@ func init() {
 			{ID: "C09.14", Desc: "the entry parser splits the metadata line on the writer's separator (an id may contain a space)", Run: func(c *Ctx) { ruleMetaLineSeparator(c, "C09.14") }, MinSites: 1},
 			{ID: "C09.15", Desc: "a path is unescaped with the path rules", Run: func(c *Ctx) { rulePathUnescape(c, "C09.15") }, MinSites: 1},
 			{ID: "C09.16", Desc: "a cache reopened with its DSN uses the DSN's key", Run: func(c *Ctx) { ruleDSNKeyFirst(c, "C09.16") }, MinSites: 1},
+			{ID: "C09.17", Desc: "a stored response has a Date whatever its Connection field names (without one it is never fresh)", Run: func(c *Ctx) { ruleDateSurvivesStrip(c, "C09.17") }, MinSites: 1},
+			{ID: "C09.18", Desc: "a stored variant stays referenced when another exchange for the URI writes the list back", Run: func(c *Ctx) { ruleIndexUpdateAtomic(c, "C09.18") }, MinSites: 1},
+			{ID: "C09.19", Desc: "equal nominated values in another order normalise to the same text (no buffer shared between list members)", Run: func(c *Ctx) { ruleScratchReuseEscapes(c, "C09.19") }, MinSites: 1},
+			{ID: "C09.20", Desc: "a background validation writes back into the list its position refers to (another variant keeps its reference and stays a HIT)", Run: func(c *Ctx) { ruleC08_9(c); renameRule(c, "C08.9", "C09.20") }, MinSites: 1},
 		},
 	})
 }
